@@ -41,11 +41,13 @@ def create_divs_from_beats(note_array: np.ndarray):
     onset_fractions = [
         Fraction(float(ix)).limit_denominator(256) for ix in note_array["onset_beat"]
     ]
+    # the grid has to hold the positions as well as the note values
+    # (e.g. notes of a quarter that start on the half beat)
     divs = np.lcm.reduce(
-        [
-            Fraction(float(ix)).limit_denominator(256).denominator
-            for ix in np.unique(note_array["duration_beat"])
-        ]
+        sorted(
+            set(f.denominator for f in duration_fractions)
+            | set(f.denominator for f in onset_fractions)
+        )
     )
     onset_divs = list(
         map(lambda r: int(divs * r.numerator / r.denominator), onset_fractions)
